@@ -10,6 +10,7 @@
     zeta_max = 1, z[m]*100 = zeta_cm
  O4 refusal above zeta_max dominates the return and raises
  O5 order-1 spline through the tabulated knots (linear in between)
+ O6 the factories hand the parameter mapping to the constructors by name
 """
 
 import ast
@@ -172,6 +173,65 @@ class PyTerms:
         raise NotAlgebraic(type(node).__name__)
 
 
+def factory_binding(ctx, chk, rule, fq):
+    """The parameter file is a mapping; the factory must hand its entries to the constructor by name
+    (`cls(**parameters)` or explicit keywords equal to the keys).  A starred sequence built from the
+    mapping's values binds by the order the keys happen to have in the file."""
+    try:
+        f = ctx.func(fq)
+    except Exception:
+        chk.indeterminate(rule, ("spowtd/%s.py" % fq.split(".")[0], fq.split(".")[-1], 0), "factory %s not found" % fq)
+        return
+    flow = Flow.of(f)
+    rets = [n for n in ast.walk(f.node) if isinstance(n, ast.Return) and n.value is not None and enclosing_func(n) is f.node]
+    calls = []
+    for r in rets:
+        v = r.value
+        if isinstance(v, ast.Name):
+            v = flow.def_value(v) or v
+        if isinstance(v, ast.Call):
+            calls.append(v)
+    if len(calls) != 1:
+        chk.indeterminate(rule, where_of(f, f.node), "factory does not return one constructor call")
+        return
+    c = calls[0]
+    p0 = f.params[0] if f.params else None
+    star = [a for a in c.args if isinstance(a, ast.Starred)]
+    dstar = [k for k in c.keywords if k.arg is None]
+    named = [k for k in c.keywords if k.arg is not None]
+
+    def from_mapping(e):
+        e = flow.expand(e, keep={p0}) if p0 else e
+        return any(isinstance(x, ast.Name) and x.id == p0 for x in ast.walk(e))
+    if star and any(from_mapping(a.value) for a in star):
+        chk.ob(rule, False, where_of(f, c), "constructor called with `*%s`: values bound by the order of the keys in the parameter mapping" % ast.unparse(star[0].value)[:70],
+               "entries of the parameter mapping reach the constructor by name (`**parameters`)", key="%s|by-name" % f.qualname,
+               why="a parameter file lists its keys in any order (yaml.safe_dump sorts them); bound by position, sd receives b and the function is not the published one for the values given")
+        return
+    if dstar and not star and not c.args:
+        ok = all(from_mapping(k.value) for k in dstar)
+        if ok:
+            chk.ob(rule, True, where_of(f, c), "constructor called with `**%s`" % ast.unparse(dstar[0].value)[:40],
+                   "entries of the parameter mapping reach the constructor by name (`**parameters`)", key="%s|by-name" % f.qualname)
+            return
+    if named and not star and not dstar and not c.args:
+        bad = []
+        for k in named:
+            v = k.value
+            key = v.slice.value if isinstance(v, ast.Subscript) and isinstance(v.slice, ast.Constant) else None
+            if key is None:
+                bad = None
+                break
+            if key != k.arg:
+                bad.append((k.arg, key))
+        if bad is not None:
+            chk.ob(rule, not bad, where_of(f, c), "constructor keywords %s" % (", ".join("%s <- [%r]" % b for b in bad) if bad else "equal to the keys they read"),
+                   "each constructor parameter receives the entry of the same name", key="%s|by-name" % f.qualname,
+                   why="a parameter bound to another key's value gives a function for other parameter values than those in the file")
+            return
+    chk.indeterminate(rule, where_of(f, c), "how the parameter mapping reaches the constructor is not read: %s" % ast.unparse(c)[:80])
+
+
 def run(ctx, chk, tier="quick"):
     chk.explanation = (
         "API resolution of specific_yield.py / transmissivity.py against the installed numpy / scipy; "
@@ -191,6 +251,8 @@ def run(ctx, chk, tier="quick"):
         chk.ob("C16.O1", True, ("spowtd/specific_yield.py", "<module>", 1), "%d library attribute chains resolve" % n,
                "every library attribute used exists in the installed library", key="sy+T|api-all")
 
+    for fq_ in ("specific_yield.create_specific_yield_function", "transmissivity.create_transmissivity_function"):
+        factory_binding(ctx, chk, "C16.O6", fq_)
     try:
         rsrc = ctx.repo.read_text(RFILE)
         rprog = parse_r(rsrc)
